@@ -8,7 +8,9 @@ EXTENDS Hashes, IOUtils
 CONSTANTS MaxLen,      \* keys of every length 0 .. MaxLen
           NRand,       \* pseudo-random keys per length
           BitStep,     \* single-bit keys: every BitStep-th bit position (plus the first and the last bit)
-          NRandSeeds   \* pseudo-random seeds in addition to 0, 1, 0xFFFFFFFF
+          NRandSeeds,  \* pseudo-random seeds in addition to 0, 1, 0xFFFFFFFF
+          ByteLens     \* full-range value family: every byte value 0..255 at the first, the last, the middle and the 12th
+                       \* (block boundary) position of keys of these lengths
 
 SeedN == (IF "C18_SEED" \in DOMAIN IOEnv THEN atoi(IOEnv.C18_SEED) ELSE 20261003) % 65537
 Lcg(x) == (x * 75 + 74) % 65537                     \* Lehmer-style generator, period 65536
@@ -24,7 +26,10 @@ RandKey(L, j) == LET x0 == (SeedN + 977 * j + 131 * L) % 65537 xs == LcgStates(x
 RandSeed(j)   == LET x0 == (SeedN + 7919 * j) % 65537 xs == LcgStates(x0, 6) IN <<xs[6] % 65536, xs[7] % 65536>>
 
 BitPos(L) == IF L = 0 THEN {} ELSE {p \in 0 .. (8 * L - 1) : p % BitStep = (L % BitStep) \/ p = 0 \/ p = 8 * L - 1}
-MCKeys == UNION {   {AllZero(L), AllFF(L), Counting(L), CountDown(L)}
+ByteAt(L, pos, v) == [i \in 1 .. L |-> IF i = pos THEN v ELSE (i * 37) % 256]
+BytePos(L) == {1, L, (L + 1) \div 2} \cup (IF L >= 12 THEN {12} ELSE {})
+ByteFamily == UNION {{ByteAt(L, pos, v) : pos \in BytePos(L), v \in 0 .. 255} : L \in ByteLens}
+MCKeys == ByteFamily \cup UNION {   {AllZero(L), AllFF(L), Counting(L), CountDown(L)}
                \cup {SingleBit(L, p) : p \in BitPos(L)}
                \cup {RandKey(L, j) : j \in 1 .. NRand}   : L \in 0 .. MaxLen }
 MCSeeds == {ZERO, <<0, 1>>, <<65535, 65535>>, <<32768, 0>>} \cup {RandSeed(j) : j \in 1 .. NRandSeeds}
